@@ -16,7 +16,7 @@ H == INSTANCE Heights WITH Lt <- NLt, Z <- <<>>, Dec <- NDec, Und <- NUnd, Fits 
 
 Trace == ndJsonDeserialize(TraceFile)
 
-VARIABLES blk, l
+VARIABLE l
 
 Flag(prop, clause, bad) == IF bad THEN {<<prop, clause>>} ELSE {}
 
@@ -56,19 +56,10 @@ Viol(ln) == CASE ln.fn = "HCmp" -> ViolCmp(ln)
 
 Report(ln, viol) == \A v \in viol : PrintT(<<"MONFAIL", ln.tr, ln.i, v>>)
 
-\* The lines are independent cases: they are judged in blocks so that TLC workers share the work
-\* (root -> one state per block -> one state per line).
-BlockSize == 200
-NBlocks == (Len(Trace) + BlockSize - 1) \div BlockSize
-TraceInit == blk = 0 /\ l = 0
-TraceNext == \/ /\ blk = 0 /\ l = 0
-              /\ \E b \in 1..NBlocks : blk' = b /\ l' = 0
-           \/ /\ blk > 0 /\ l = 0
-              /\ \E j \in ((blk - 1) * BlockSize + 1)..(IF blk * BlockSize < Len(Trace) THEN blk * BlockSize ELSE Len(Trace)) :
-                    /\ Report(Trace[j], Viol(Trace[j]))
-                    /\ l' = j /\ blk' = blk
-TraceSpec == TraceInit /\ [][TraceNext]_<<blk, l>>
-\* every line was judged: root + blocks + lines distinct states
-AllConsumed == /\ TLCGet("distinct") = 1 + NBlocks + Len(Trace)
-               /\ PrintT(<<"CONSUMED", Len(Trace)>>)
+TraceInit == l = 0
+TraceNext == /\ l < Len(Trace)
+             /\ Report(Trace[l + 1], Viol(Trace[l + 1]))
+             /\ l' = l + 1
+             /\ (l + 1 = Len(Trace) => PrintT(<<"CONSUMED", l + 1>>))
+TraceSpec == TraceInit /\ [][TraceNext]_l
 =============================================================================
